@@ -213,3 +213,25 @@ def iterator_position(path, x):
             continue
         return None
     return None
+
+
+def under_equalities(conds, t):
+    """term t with every sub-term x replaced by c for each path condition x == c (c constant)"""
+    from .engine import C, lin, mul, is_const
+    eqs = {}
+    for c in conds:
+        if isinstance(c, tuple) and c[:2] == ("cmp", "==") and is_const(c[3]) and not is_const(c[2]):
+            eqs[c[2]] = c[3]
+    if not eqs:
+        return t
+
+    def sub(x):
+        if x in eqs:
+            return eqs[x]
+        if isinstance(x, tuple) and x[:1] == ("lin",):
+            acc = C(x[1])
+            for y, k in x[2]:
+                acc = lin("+", acc, mul(C(k), sub(y)))
+            return acc
+        return x
+    return sub(t)
